@@ -145,13 +145,14 @@ def run(ctx, rep):
     # appliances accept the TCP connection and stay silent). V2 replies - a V3 device would need the cloud (C19)
     v2 = [g for g in replies if g[1] == 2]
     for g in (v2 if ctx.deep else v2[::3]):
-        dg = [(rng.randrange(0, 4000), g[0], 6445, g[7])]
-        st, devs, _, _ = S.run_impl(dg, auto_connect=True)
+        tmo = rng.choice([1.0, 2.0, 5.0])                     # the follow-up query of a silent appliance outlasts the discovery timeout
+        dg = [(rng.randrange(0, int(tmo * 800)), g[0], 6445, g[7])]
+        st, devs, _, _ = S.run_impl(dg, auto_connect=True, timeout=tmo)
         rep.case(("auto", g[2], g[3], g[4]), "auto-connect-" + ("ac" if g[4] == 0xAC else "other"))
         want = [(g[0], g[3], g[1], g[4], int(g[4] == 0xAC), g[2], tuple(g[6]), tuple(g[5]))]
         if st != 0 or devs != want:
             rep.fail("oracle", "discover-raised" if st else "answering-device-not-reported:auto-connect",
-                     {"auto_connect": True, "dgrams": [(t, h, p, d.hex()) for t, h, p, d in dg]}, {"status": st, "reported": devs, "advertised": want})
+                     {"auto_connect": True, "timeout_s": tmo, "dgrams": [(t, h, p, d.hex()) for t, h, p, d in dg]}, {"status": st, "reported": devs, "advertised": want})
     # discover_single(host): the probe goes to one host, named by IP literal or by HOSTNAME; the device that answers is the result
     for g in replies[:: (7 if not ctx.deep else 2)]:
         for host in (S.ip_of(g[0]), "ac-livingroom.local", "localhost"):
